@@ -467,6 +467,54 @@ def expand_conditional_statements(tree: ast.Module) -> int:
         loop = ast.For(target=g.target, iter=g.iter, body=[inner], orelse=[], type_comment=None)
         return ast.copy_location(loop, st)
 
+    def unmatch(st: ast.stmt) -> Optional[ast.stmt]:
+        """`match <name>:` whose cases are singletons / values / bare class patterns / alternatives of those / a final
+        wildcard (each with an optional guard) is the if / elif / else chain over `is`, `==`, isinstance() it abbreviates."""
+        if not isinstance(st, ast.Match) or not isinstance(st.subject, ast.Name):
+            return None
+        subj = st.subject
+
+        def test_of(p: ast.pattern) -> Optional[ast.expr]:
+            if isinstance(p, ast.MatchSingleton):
+                return ast.Compare(left=copy.deepcopy(subj), ops=[ast.Is()], comparators=[ast.Constant(value=p.value)])
+            if isinstance(p, ast.MatchValue):
+                return ast.Compare(left=copy.deepcopy(subj), ops=[ast.Eq()], comparators=[p.value])
+            if isinstance(p, ast.MatchClass) and not p.patterns and not p.kwd_patterns:
+                return ast.Call(func=ast.Name(id="isinstance", ctx=ast.Load()), args=[copy.deepcopy(subj), p.cls], keywords=[])
+            if isinstance(p, ast.MatchOr) and all(isinstance(q, ast.MatchClass) and not q.patterns and not q.kwd_patterns for q in p.patterns):
+                # case A() | B(): one isinstance over the tuple of classes
+                return ast.Call(func=ast.Name(id="isinstance", ctx=ast.Load()), args=[copy.deepcopy(subj), ast.Tuple(elts=[q.cls for q in p.patterns], ctx=ast.Load())], keywords=[])
+            if isinstance(p, ast.MatchOr):
+                parts = [test_of(q) for q in p.patterns]
+                return ast.BoolOp(op=ast.Or(), values=parts) if all(x is not None for x in parts) else None  # type: ignore[arg-type]
+            if isinstance(p, ast.MatchAs) and p.pattern is None and p.name is None:
+                return ast.Constant(value=True)
+            return None
+
+        arms = []
+        for c in st.cases:
+            t = test_of(c.pattern)
+            if t is None:
+                return None
+            if c.guard is not None:
+                t = c.guard if isinstance(t, ast.Constant) and t.value is True else ast.BoolOp(op=ast.And(), values=[t, c.guard])
+            arms.append((t, c.body, c))
+        node: Optional[ast.If] = None
+        tail: List[ast.stmt] = []
+        for t, body, c in reversed(arms):
+            if isinstance(t, ast.Constant) and t.value is True and node is None and not tail:
+                tail = body
+                continue
+            new_if = ast.If(test=t, body=body, orelse=[node] if node is not None else tail)
+            ast.copy_location(new_if, c.pattern)
+            for x in ast.walk(t):
+                if not hasattr(x, "lineno"):
+                    ast.copy_location(x, c.pattern)
+            node = new_if
+        if node is None:
+            return None
+        return ast.copy_location(node, st)
+
     for fn in [n for n in ast.walk(tree) if isinstance(n, (ast.FunctionDef, ast.AsyncFunctionDef))]:
         for n in ast.walk(fn):
             for fld in ("body", "orelse", "finalbody"):
@@ -475,7 +523,7 @@ def expand_conditional_statements(tree: ast.Module) -> int:
                     continue
                 for i, st in enumerate(blk):
                     if isinstance(st, ast.stmt):
-                        new = split(st) or unroll(st)
+                        new = split(st) or unroll(st) or unmatch(st)
                         if new is not None:
                             blk[i] = new
                             n_done += 1
@@ -755,17 +803,72 @@ class Program:
             raise AnalysisError(f"module {name} vanished")
         return self.modules[name]
 
+    def _follow_reexport(self, qual: str):
+        """`mod:name[.method][/nested]` whose definition moved to another module but is still importable as `mod.name`
+        (re-export, alias): the FuncInfo / ClassInfo it resolves to now."""
+        if ":" not in qual:
+            return None
+        mod, rest = qual.split(":", 1)
+        head, *nested = rest.split("/")
+        parts = head.split(".")
+        tgt = self.resolve_symbol(mod, parts[0])
+        if isinstance(tgt, ClassInfo) and len(parts) == 2:
+            tgt = tgt.find_method(parts[1])
+        elif len(parts) != 1:
+            return None
+        if isinstance(tgt, FuncInfo):
+            for nm in nested:
+                tgt = tgt.nested.get(nm)
+                if tgt is None:
+                    return None
+        return tgt
+
+    def _thin_delegate(self, f: FuncInfo, _depth: int = 0) -> FuncInfo:
+        """An anchor kept only as a compatibility alias - its whole body is `return <other>(<its own parameters, each once>)` -
+        stands for the function it hands everything to (a function turned into a method, a renamed helper)."""
+        if _depth > 2 or isinstance(f.node, ast.Lambda):
+            return f
+        body = [st for st in f.node.body if not (isinstance(st, ast.Expr) and isinstance(st.value, ast.Constant))]
+        if len(body) != 1 or not isinstance(body[0], ast.Return) or not isinstance(body[0].value, ast.Call):
+            return f
+        c = body[0].value
+        params = [a.arg for a in f.params()]
+        argn = []
+        if isinstance(c.func, ast.Attribute) and isinstance(c.func.value, ast.Name) and c.func.value.id in params:
+            argn.append(c.func.value.id)  # receiver.method(...)
+        for a in list(c.args) + [k.value for k in c.keywords]:
+            if not isinstance(a, ast.Name):
+                return f
+            argn.append(a.id)
+        if sorted(argn) != sorted(params) or not params:
+            return f
+        tg = [t for t in self.resolve_call(c, f) if not t.is_stub]
+        if len(tg) != 1 or tg[0] is f:
+            return f
+        return self._thin_delegate(tg[0], _depth + 1)
+
     def func(self, qual: str) -> FuncInfo:
         if qual not in self.functions:
+            tgt = self._follow_reexport(qual)
+            if isinstance(tgt, FuncInfo):
+                return self._thin_delegate(tgt)
             raise AnalysisError(f"anchor function {qual} not found")
-        return self.functions[qual]
+        return self._thin_delegate(self.functions[qual])
 
     def maybe_func(self, qual: str) -> Optional[FuncInfo]:
-        return self.functions.get(qual)
+        f = self.functions.get(qual)
+        if f is None:
+            tgt = self._follow_reexport(qual)
+            if isinstance(tgt, FuncInfo):
+                return tgt
+        return f
 
     def cls(self, qual: str) -> ClassInfo:
         if qual in self.classes:
             return self.classes[qual]
+        tgt = self._follow_reexport(qual)
+        if isinstance(tgt, ClassInfo):
+            return tgt
         cands = self._by_name.get(qual, [])
         if len(cands) == 1:
             return cands[0]
